@@ -50,8 +50,8 @@ type recorder struct {
 	seen map[string][]string // component name -> "field|TagVal|args"
 }
 
-func (m *recorder) Naming() string { return "verif.recorder" }
-func (m *recorder) Order() int     { return 100 }
+func (m *recorder) Naming() string                                          { return "verif.recorder" }
+func (m *recorder) Order() int                                              { return 100 }
 func (m *recorder) PostProcessAfterInstantiation(any, string) (bool, error) { return true, nil }
 func (m *recorder) PostProcessProperties(props []*component_definition.Property, c any, name string) ([]*component_definition.Property, error) {
 	m.mu.Lock()
